@@ -17,6 +17,7 @@ type Leaf struct {
 	Bits int    // wire width for uint leaves
 	v    reflect.Value
 	knownXR bool // leaf of the (derived) XRHeader of a defined XR block kind
+	big     bool // the value has many leaves: complete 13-bit domains are not swept
 }
 
 // widths of fields narrower on the wire than their Go type (well-formed
@@ -145,7 +146,7 @@ func (l Leaf) alphabet(thorough bool) []uint64 {
 		}
 		return out
 	}
-	if w <= 8 || (thorough && w <= 13) {
+	if w <= 8 || (thorough && w <= 13 && !l.big) {
 		var out []uint64
 		for v := lo; v <= max; v++ {
 			out = append(out, v)
